@@ -8,7 +8,7 @@ ops (besides `ps`, `pst`, `rh` of `KitModel/EncDrv.lean`)
 * `enc fk= np= wfk= kw= cph= keyname= plain=` → `doc=<hex>` (or `refuse=headerTooLong` when the
   header exceeds `segSize`, as `encryptImpl`/`SignHeader` do): the specification encoder
   `specEncrypt` (README.md) over AES-GCM / ChaCha20-Poly1305 / HKDF / HMAC written in Lean.
-* `dec fk=<hex|none|wfk> keyname=<hex> data= caps= ewd= term=` → `out=<hex> term=<name>`:
+* `dec fk=<hex|none|empty|wfk> [uerr=1] keyname=<hex> data= caps= ewd= term=` → `out=<hex> term=<name>`:
   `decryptImpl` on the given source script; `fk` is what `UnwrapKeyFn` returned in the real run
   (`wfk` = identity unwrap, `none` = it was not called).
 * `specdec fk= data=` → `out=<hex>` / `fail`: the README-only decoder `specDecrypt`.
@@ -46,7 +46,7 @@ def answerReal (l : Line) : Option String :=
       let kn ← l.hex? "keyname"
       let plain ← l.hex? "plain"
       if !Kit.Enc.Codec.isAscii kn then pure "unmodelled=keyname-non-ascii"
-      else if wfk.isEmpty then pure "unmodelled=wfk-empty"
+      else if wfk.isEmpty then pure "refuse=emptyWrappedKey"
       else
         -- SignHeader's own limit, as in `encryptImpl`
         let hdr := signHeader realCrypto realCodec P fk (realCodec.render ⟨kn, kw, wfk, cph, np⟩)
@@ -59,7 +59,7 @@ def answerReal (l : Line) : Option String :=
       let fkArg := (l.get? "fk").getD "none"
       let unwrap : Manifest → Bytes → Bytes ←
         if fkArg == "wfk" then some (fun m _ => m.wfk)
-        else if fkArg == "none" then some (fun _ _ => [])
+        else if fkArg == "none" || fkArg == "empty" then some (fun _ _ => [])
         else (fromHex fkArg).map (fun k => fun _ _ => k)
       -- is the manifest of this stream inside the modelled JSON subset?
       let unmodelled : Option String :=
@@ -72,7 +72,8 @@ def answerReal (l : Line) : Option String :=
       match unmodelled with
       | some why => pure s!"unmodelled={why}"
       | none =>
-        let res := decryptImpl realCrypto realCodec P ⟨kn, unwrap⟩ r
+        let uerr := (l.get? "uerr").getD "0" == "1"
+        let res := decryptImpl realCrypto realCodec P ⟨kn, unwrap, fun _ _ => uerr⟩ r
         pure s!"out={toHex res.1} term={res.2.name}"
       : Option String).getD "bad-request"
   | "specdec" => some <| (do
